@@ -30,9 +30,20 @@ DEFAULTS = {"mean": {"with_scale": False}, "normal": {"decomposed_scale": False}
 
 
 def _aggregator(case, opts=None):
+    """the aggregator object the case is run on: a fresh instance on which the calls of `case["history"]`
+    (earlier, unrelated aggregate() calls: other members / shapes / weights / plain or masked) have already
+    been made.  The property is about every list of member predictions, so what the object was used for
+    before must not matter; every L2 / L3 judgement below is made on such a (possibly pre-used) instance."""
     import deephyper.ensemble.aggregator as A
 
-    return getattr(A, CLS[case["agg"]])(**(opts if opts is not None else case["opts"]))
+    inst = getattr(A, CLS[case["agg"]])(**(opts if opts is not None else case["opts"]))
+    for h in case.get("history") or []:
+        hc = dict(h, agg=case["agg"])
+        try:
+            inst.aggregate(_members(hc), None if h["weights"] is None else list(h["weights"]))
+        except Exception:  # noqa: BLE001 - an earlier call that raised is part of the history too
+            pass
+    return inst
 
 
 def _arr(case, flat, mask):
@@ -122,8 +133,9 @@ def _weights(rng, n):
     return kind, [1.0] * (n + rng.choice([-1, 1]) if n > 1 else 2)
 
 
-def gen_case(rng):
-    agg = rng.choice(["mean", "mean", "normal", "normal", "cat", "cat", "cat", "mode", "mode"])
+def gen_case(rng, agg=None, opts=None):
+    agg = agg or rng.choice(["mean", "mean", "normal", "normal", "cat", "cat", "cat", "mode", "mode"])
+    force_opts = opts
     n = rng.choice([1, 1, 2, 2, 3, 3, 3, 4, 5, 6, 7, 8])
     masked = rng.random() < 0.5
     if agg in ("mean", "normal"):
@@ -148,6 +160,8 @@ def gen_case(rng):
                 "decomposed_uncertainty": rng.random() < 0.5}
     else:
         opts = {"with_uncertainty": rng.random() < 0.6}
+    if force_opts is not None:
+        opts = dict(force_opts)
     wkind, w = _weights(rng, n)
     pm = rng.choice([0.0, 0.2, 0.4, 0.7])
     vkind = rng.choice(["free", "free", "free", "equal", "small"])
@@ -190,6 +204,27 @@ def gen_case(rng):
     rng.shuffle(perm)
     return {"agg": agg, "opts": opts, "shape": shape, "masked": masked, "members": members, "weights": w,
             "wkind": wkind, "perm": perm, "uniform_c": rng.choice([1.0, 0.5, 2.0, 1 / n, 0.1])}
+
+
+_CALL_KEYS = ("shape", "masked", "members", "weights")
+
+
+def gen_history(rng):
+    """2..4 aggregate() calls on ONE aggregator object (same class and options; members, shapes, weights and
+    plain/masked differ from call to call) -> one case per call after the first, carrying the earlier calls"""
+    first = gen_case(rng)
+    seq = [first] + [gen_case(rng, agg=first["agg"], opts=first["opts"]) for _ in range(rng.randint(1, 3))]
+    if all(c["masked"] == seq[0]["masked"] for c in seq):  # make sure plain and masked inputs are mixed
+        j = rng.randrange(1, len(seq))
+        for _ in range(20):
+            c = gen_case(rng, agg=first["agg"], opts=first["opts"])
+            if c["masked"] != seq[0]["masked"]:
+                seq[j] = c
+                break
+    out = []
+    for i in range(1, len(seq)):
+        out.append(dict(seq[i], history=[{k: h[k] for k in _CALL_KEYS} for h in seq[:i]]))
+    return out
 
 
 # --------------------------------------------------------------------------- L2: model
@@ -412,6 +447,11 @@ def oracle(case, only=None):
     out = base[1]
     w = case["weights"]
     tie = _mode_tie(case)
+    # -- the result does not depend on what the aggregator object was used for before
+    if case.get("history") and want("reuse-independent"):
+        r = _same(base, call(dict(case, history=None)), tie)
+        if r:
+            fails.append(("reuse-independent", "same call on a fresh instance differs: " + r))
     # -- uniform weights == no weights
     if want("uniform-eq-none"):
         r = _same(call(case, weights=None), call(case, weights=[case.get("uniform_c", 1.0)] * n),
@@ -568,6 +608,14 @@ def shrink(case, clause):
             return True
         return False
 
+    if case.get("history"):
+        if not attempt(dict(copy.deepcopy(case), history=None)):
+            i = 0
+            while len(case["history"]) > 1 and i < len(case["history"]):
+                c2 = copy.deepcopy(case)
+                del c2["history"][i]
+                if not attempt(c2):
+                    i += 1
     if case["masked"]:
         c2 = copy.deepcopy(case)
         c2["masked"] = False
@@ -606,7 +654,12 @@ def shrink(case, clause):
 
 def fingerprint(case, clause):
     o = ",".join(f"{k}={v}" for k, v in sorted(case["opts"].items()) if DEFAULTS[case["agg"]].get(k) != v)
-    parts = [p for p in (o, f"weights={_wclass(case['weights'])}", "masked" if case["masked"] else "") if p]
+    hist = case.get("history") or []
+    reused = ""
+    if hist:
+        kinds = sorted({"masked" if h["masked"] else "plain" for h in hist})
+        reused = "reused-instance(after " + "+".join(kinds) + " call)"
+    parts = [p for p in (o, f"weights={_wclass(case['weights'])}", "masked" if case["masked"] else "", reused) if p]
     return f"C19|{clause}|{CLS[case['agg']]}.aggregate|{','.join(parts)}"
 
 
@@ -637,8 +690,12 @@ def _check_cases(ck, cases, verbose=False):
     with ck.driver() as d:
         reps = d.ask_all(reqs)
     for case, real, rep in zip(cases, reals, reps):
-        ck.case({k: case[k] for k in ("agg", "opts", "shape", "masked", "members", "weights")},
+        ck.case({k: case.get(k) for k in ("agg", "opts", "shape", "masked", "members", "weights", "history")},
                 nontrivial=_nontrivial(case))
+        if case.get("history"):
+            ck.count(f"history:earlier-calls={len(case['history'])}")
+            ck.count("history:" + "+".join(sorted({"masked" if h["masked"] else "plain" for h in case["history"]}))
+                     + "->" + ("masked" if case["masked"] else "plain"))
         ck.count("agg:" + case["agg"] + ":" + ",".join(f"{k}={v}" for k, v in sorted(case["opts"].items())))
         ck.count("weights:" + case.get("wkind", _wclass(case["weights"])))
         ck.count("masked" if case["masked"] else "plain")
@@ -671,6 +728,8 @@ def run(ck):
     ck.rule = ("generated cases: aggregator x options x 1..8 members x shapes (0-D..3-D) x weights "
                "(None/uniform/normalised/raw/some zero/all zero/wrong length) x plain/masked (cell masks for "
                "mean/normal, row masks for categorical; fully masked members and cells); dyadic values; "
+               "plus histories: 2..4 aggregate() calls on ONE aggregator object mixing plain/masked inputs, member "
+               "counts, shapes and weights, every call after the first judged like a call on a fresh instance; "
                "distinct by canonical input; non-trivial = >=2 members and (weights given or masked)")
     ck.assumptions = [
         "IEEE rounding: model is exact over Rat, compared within 1e-12 (relative) on dyadic inputs; scales compared squared",
@@ -683,6 +742,8 @@ def run(ck):
     ck.count("corpus", len(cases))
     n = ck.pick(4000, 40000)
     cases += [gen_case(ck.rng) for _ in range(n)]
+    for _ in range(ck.pick(700, 7000)):
+        cases += gen_history(ck.rng)
     _check_cases(ck, cases)
 
 
